@@ -16,7 +16,7 @@ import (
 // (DESIGN.md §4 C15). Time is the virtual clock: expiry is decided at T-1ms / T+1ms instead of
 // by sleeping.
 
-const c15T = 10 // dialogTimeout in seconds
+var c15T = 10 // dialogTimeout in seconds (a mode name ending in "@40" runs one execution with 40)
 
 type c15Ev struct {
 	Kind  string `json:"kind"` // est | probe | bye | notify | tick | traffic
@@ -35,6 +35,8 @@ func (e c15Ev) String() string {
 		return fmt.Sprintf("probe%d", e.D)
 	case "bye":
 		return fmt.Sprintf("bye%d(%d)", e.D, e.Code)
+	case "reinv":
+		return fmt.Sprintf("re-invite%d(%d)", e.D, e.Code)
 	case "notify":
 		return fmt.Sprintf("notify%d(%s)", e.D, e.State)
 	case "tick":
@@ -57,6 +59,8 @@ func (e c15Ev) typ() string {
 		return "notify(" + e.State + ")"
 	case "bye":
 		return fmt.Sprintf("bye(%d)", e.Code)
+	case "reinv":
+		return fmt.Sprintf("re-invite(%d)", e.Code)
 	}
 	return e.Kind
 }
@@ -140,6 +144,12 @@ func (x *c15World) request(method string, d int, inDialog bool, extra ...WHdr) (
 
 // c15Exec replays a history; returns state key, violated clause, detail.
 func c15Exec(mode string, hist []c15Ev) (string, string, string) {
+	if strings.HasSuffix(mode, "@40") {
+		// a dialog timeout above the 32 s of SIP's transaction timers
+		mode = strings.TrimSuffix(mode, "@40")
+		c15T = 40
+		defer func() { c15T = 10 }()
+	}
 	x := c15Start(mode)
 	defer x.w.Close()
 	T := int64(c15T) * 1e9
@@ -207,6 +217,31 @@ func c15Exec(mode string, hist []c15Ev) (string, string, string) {
 			}
 			if d.pinned != "unknown" {
 				d.pinned = "yes"
+			}
+		case "reinv":
+			// a re-INVITE inside the established dialog that the answering backend rejects: the dialog goes on as
+			// before. (The tree re-binds on every INVITE response that carries both tags, with the plain dialog
+			// timeout; the reference counts the answer as one more establishing response without Expires.)
+			if d.pinned != "yes" {
+				return "", "invalid", ""
+			}
+			tos, rel := x.request("INVITE", ev.D, true)
+			if len(tos) != 1 || rel == nil {
+				return "", "reinvite-not-relayed-once", fmt.Sprintf("%s: %v", desc, tos)
+			}
+			t0 := x.now()
+			x.w.SendUDP(tos[0], c15Lst, ResponseTo(rel, ev.Code, "").Render())
+			x.w.Observe()
+			t1 := x.now()
+			if tos[0] == d.backend {
+				if t0+T < d.lo {
+					d.lo = t0 + T
+				}
+				if t1+T > d.hi {
+					d.hi = t1 + T
+				}
+			} else {
+				d.pinned = "unknown" // the re-INVITE itself strayed (judged by the probes of other histories)
 			}
 		case "probe":
 			if d.relayed == nil {
@@ -314,14 +349,13 @@ func c15Exec(mode string, hist []c15Ev) (string, string, string) {
 	return b.String(), "", ""
 }
 
-// c15Invariant: an entry whose expiry lies more than 2T in the past although traffic has been
-// flowing continuously (gaps <= T/2) since it expired.
+// c15Invariant: "none survives more than one further dialog-timeout period of ongoing traffic". Traffic is
+// ongoing since s, the start of the last run of traffic events with gaps <= T/2 that reaches up to now; an entry
+// that expired at e must be gone once traffic has been ongoing for more than 2T (one period plus the phase of
+// the sweep) since max(e, s) - whether or not the proxy was idle between e and s.
 func c15Invariant(x *c15World, T int64, desc string) (string, string) {
-	if len(x.traffic) == 0 || x.traffic[len(x.traffic)-1] != x.now() && x.now()-x.traffic[len(x.traffic)-1] > 1e6 {
-		// only checked right after a traffic event
-		if len(x.traffic) == 0 || x.now()-x.traffic[len(x.traffic)-1] > 1e6 {
-			return "", ""
-		}
+	if len(x.traffic) == 0 || x.now()-x.traffic[len(x.traffic)-1] > 1e6 {
+		return "", "" // only checked right after a traffic event
 	}
 	now := x.now()
 	nowT := vtime.Base().Add(time.Duration(now))
@@ -329,28 +363,22 @@ func c15Invariant(x *c15World, T int64, desc string) (string, string) {
 	if !ok {
 		return "", "" // white-box clause not available on this tree (reported as a cap); the pin-lifetime clauses still judge
 	}
+	s := x.traffic[len(x.traffic)-1]
+	for i := len(x.traffic) - 2; i >= 0; i-- {
+		if s-x.traffic[i] > T/2 {
+			break
+		}
+		s = x.traffic[i]
+	}
 	for _, pin := range pins {
-		k := pin.Key
 		age := nowT.Sub(pin.Expire).Nanoseconds()
-		if age <= 2*T {
-			continue
-		}
 		e := now - age
-		// continuous traffic since e?
-		prev := e
-		ok := true
-		for _, t := range x.traffic {
-			if t < e {
-				continue
-			}
-			if t-prev > T/2 {
-				ok = false
-				break
-			}
-			prev = t
+		from := e
+		if s > from {
+			from = s
 		}
-		if ok {
-			return "expired-pin-not-purged", fmt.Sprintf("%s: entry %q expired %.3f s ago (more than two dialog-timeout periods of %d s) although traffic has been flowing with gaps <= %d s ever since; table holds %d entries", desc, k, float64(age)/1e9, c15T, c15T/2, len(pins))
+		if now-from > 2*T {
+			return "expired-pin-not-purged", fmt.Sprintf("%s: entry %q expired %.3f s ago and traffic has been flowing with gaps <= %d s for the last %.3f s (more than two dialog-timeout periods of %d s); table holds %d entries", desc, pin.Key, float64(age)/1e9, c15T/2, float64(now-s)/1e9, c15T, len(pins))
 		}
 	}
 	return "", ""
@@ -358,11 +386,17 @@ func c15Invariant(x *c15World, T int64, desc string) (string, string) {
 
 // c15LongRun: pins n dialogs (every 4th with a huge Expires on an unrelated request in between),
 // lets them expire and keeps traffic flowing for 3T: the table must shrink back.
-func c15LongRun(c *Ctx, n int, poison bool) {
+func c15LongRun(c *Ctx, n int, poison bool, quietSpell ...bool) {
 	x := c15Start("yaml")
 	defer x.w.Close()
 	T := int64(c15T) * 1e9
+	quiet := len(quietSpell) > 0 && quietSpell[0]
 	name := fmt.Sprintf("long-run(n=%d,huge-expires=%v)", n, poison)
+	mode := fmt.Sprintf("long:%d:%v", n, poison)
+	if quiet {
+		name = fmt.Sprintf("long-run(n=%d,then no traffic at all for %d s)", n, 3*c15T+3)
+		mode = fmt.Sprintf("long-quiet:%d", n)
+	}
 	if poison {
 		x.w.S.W.Advance(T + 1e9) // let the first sweep become due, then schedule the next one by a huge Expires
 		x.request("OPTIONS", 9, false, WHdr{"Expires", "2147483647"})
@@ -395,23 +429,31 @@ func c15LongRun(c *Ctx, n int, poison bool) {
 		return len(pins)
 	}
 	peak := tableLen()
+	if quiet {
+		// a quiet spell that covers whole sweep periods: everything expires while nothing flows
+		x.w.S.W.Advance(int64(3*c15T+3) * 1e9)
+	}
 	// now only traffic ticks: one unrelated request per second for 3T + 5 s
 	for s := 0; s < 3*c15T+5; s++ {
 		x.w.S.W.Advance(1e9)
 		x.request("OPTIONS", 9, false)
 		c.Res.Executions++
 		if cl, det := c15Invariant(x, T, fmt.Sprintf("%s, %d s after the last pin", name, s+1)); cl != "" {
-			c.Violate(cl+"|"+fmt.Sprintf("long-run,huge-expires=%v", poison), cl, det, c15Case{fmt.Sprintf("long:%d:%v", n, poison), nil})
+			c.Violate(cl+"|"+fmt.Sprintf("long-run,huge-expires=%v,quiet=%v", poison, quiet), cl, det, c15Case{mode, nil})
 			return
 		}
 	}
 	c.Res.Evaluations++
 	c.Res.Nontrivial++
-	c.Count(fmt.Sprintf("long_run_peak_entries_huge_%v", poison), int64(peak))
 	final := tableLen()
-	c.Count(fmt.Sprintf("long_run_final_entries_huge_%v", poison), int64(final))
+	if !quiet {
+		c.Count(fmt.Sprintf("long_run_peak_entries_huge_%v", poison), int64(peak))
+		c.Count(fmt.Sprintf("long_run_final_entries_huge_%v", poison), int64(final))
+	} else {
+		c.Count("long_run_after_quiet_spell_final_entries", int64(final))
+	}
 	if final > peak/4+50 {
-		c.Violate("table-does-not-shrink|"+fmt.Sprintf("huge-expires=%v", poison), "table-does-not-shrink", fmt.Sprintf("%s: %d entries at the peak, still %d entries %d s later with continuous traffic", name, peak, final, 3*c15T+5), c15Case{fmt.Sprintf("long:%d:%v", n, poison), nil})
+		c.Violate("table-does-not-shrink|"+fmt.Sprintf("huge-expires=%v,quiet=%v", poison, quiet), "table-does-not-shrink", fmt.Sprintf("%s: %d entries at the peak, still %d entries after %d s of continuous traffic", name, peak, final, 3*c15T+5), c15Case{mode, nil})
 	}
 }
 
@@ -486,7 +528,7 @@ func c15Events(two bool, thorough bool) []c15Ev {
 		evs = append(evs, c15Ev{Kind: "probe", D: d})
 		evs = append(evs, c15Ev{Kind: "bye", D: d, Code: 200}, c15Ev{Kind: "bye", D: d, Code: 481}, c15Ev{Kind: "bye", D: d, Code: 603})
 		if thorough {
-			evs = append(evs, c15Ev{Kind: "bye", D: d, Code: 503}, c15Ev{Kind: "bye", D: d, Code: 302})
+			evs = append(evs, c15Ev{Kind: "bye", D: d, Code: 503}, c15Ev{Kind: "bye", D: d, Code: 302}, c15Ev{Kind: "reinv", D: d, Code: 488})
 		}
 		for _, s := range []string{"active", "terminated", "terminated;reason=timeout"} {
 			evs = append(evs, c15Ev{Kind: "notify", D: d, State: s})
@@ -505,13 +547,18 @@ func c15Run(c *Ctx) {
 		two   bool
 		depth int
 	}
-	plans := []plan{{"yaml", false, 5}, {"env", false, 3}, {"main", false, 3}, {"yaml", true, 4}}
+	plans := []plan{{"yaml", false, 5}, {"env", false, 3}, {"main", false, 3}, {"yaml", true, 4}, {"yaml@40", false, 4}}
 	if c.Thorough() {
-		plans = []plan{{"yaml", false, 6}, {"env", false, 4}, {"main", false, 4}, {"yaml", true, 5}}
+		plans = []plan{{"yaml", false, 6}, {"env", false, 4}, {"main", false, 4}, {"yaml", true, 5}, {"yaml@40", false, 6}}
 	}
 	for _, pl := range plans {
 		pl := pl
 		evs := c15Events(pl.two, c.Thorough())
+		if pl.mode == "yaml@40" {
+			// dialog timeout 40 s: establishment, rejected re-INVITE, probes, clock steps around 32 s and 40 s
+			evs = []c15Ev{{Kind: "est", Exp: "none"}, {Kind: "est", Exp: "5"}, {Kind: "reinv", Code: 488}, {Kind: "reinv", Code: 401}, {Kind: "probe"}, {Kind: "bye", Code: 200},
+				{Kind: "tick", MS: 1000}, {Kind: "tick", MS: 6000}, {Kind: "tick", MS: 33000}, {Kind: "tick", MS: 35000}, {Kind: "tick", MS: 41000}, {Kind: "traffic", Exp: "none"}}
+		}
 		st, tr, done := BFSReplay(c, pl.depth, evs, true, func(h []c15Ev) (string, bool) {
 			// consecutive ticks commute and add up: explore them in non-decreasing order only
 			if n := len(h); n >= 2 && h[n-1].Kind == "tick" && h[n-2].Kind == "tick" && h[n-1].MS < h[n-2].MS {
@@ -563,6 +610,9 @@ func c15Run(c *Ctx) {
 	if c.Worker == 2%c.NWorkers {
 		c15LongRepin(c, 200)
 	}
+	if c.Worker == 5%c.NWorkers {
+		c15LongRun(c, 200, false, true)
+	}
 	if c.Worker == 3%c.NWorkers {
 		c15LongRepin(c, 1000)
 	}
@@ -591,8 +641,13 @@ func init() {
 			if strings.HasPrefix(cs.Mode, "long") {
 				cc := &Ctx{ID: "C15x", Res: newResult(), vmap: map[string]*Violation{}, Deadline: c.Deadline, NWorkers: 1}
 				n := 200
-				fmt.Sscanf(cs.Mode, "long:%d:", &n)
-				c15LongRun(cc, n, strings.HasSuffix(cs.Mode, "true"))
+				if strings.HasPrefix(cs.Mode, "long-quiet:") {
+					fmt.Sscanf(cs.Mode, "long-quiet:%d", &n)
+					c15LongRun(cc, n, false, true)
+				} else {
+					fmt.Sscanf(cs.Mode, "long:%d:", &n)
+					c15LongRun(cc, n, strings.HasSuffix(cs.Mode, "true"))
+				}
 				if len(cc.Res.Violations) > 0 {
 					return cc.Res.Violations[0].Clause
 				}
